@@ -109,7 +109,7 @@ def check(case):
 
 
 def _strategy(tier):
-    return st.tuples(sources.any_text(tier, weights=(2, 3, 3, 2, 5, 2, 2, 2)), O.valid_options()).map(lambda t: {'text': t[0], 'opts': t[1]})
+    return st.tuples(sources.any_text(tier, weights=(2, 3, 3, 2, 5, 2, 2, 2, 3)), O.valid_options()).map(lambda t: {'text': t[0], 'opts': t[1]})
 
 
 class Recording(io.StringIO):
@@ -148,5 +148,5 @@ def check_invalid(case):
     return res
 
 
-LEGS = [Leg('text', check=check, strategy=_strategy, examples={'quick': 12000, 'thorough': 400000}),
+LEGS = [Leg('text', check=check, strategy=_strategy, examples={'quick': 16000, 'thorough': 400000}),
         Leg('invalid', check=check_invalid, enumerate=_invalid_cases, exhaustive=True, max_shards=2)]
